@@ -183,20 +183,3 @@ Theorem C15_reversed_range_colours_nothing :
     run C std conv switch black (compile C [SBlock l h w (ss1 ++ ss2)]) st = (st2, true) /\ out st1 = out st2.
 Proof. exact reversed_range_colours_nothing. Qed.
 Print Assumptions C15_reversed_range_colours_nothing.
-
-(* ---- the compiled zone command (Lang/Simulation.v, sim_one_zone) ----
-   `set L zone a b` / `set L zone a` with L a string, a constant or a variable and a, b ordinary values or call-free expressions:
-   whenever the reference semantics runs the statement (the delay, then the zone command of the device model with the values
-   of a and b at that moment: zones a .. b inclusive as one message, nothing for a light that has no zones), the compiled code
-   -- WAIT; the name; a into FIRST_ZONE; b (or None) into LAST_ZONE; the multi-zone operand; COLOR -- runs on the machine model
-   to the instruction behind it with exactly the same events, and the states correspond again. *)
-From Bardolph Require Import Lang.Instr Lang.Loader Lang.Machine Lang.Syntax Lang.Sem Lang.CodeGen Lang.ExprCompile Lang.Simulation.
-Theorem C15_zone_command_compiled_runs_as_its_source_says :
-  forall rt mt n a b, zone_ok mt n a b = true ->
-  forall im ss s ss' fuel, sim ss s -> code_at im (m_pc s) (c_stmt rt mt false None (SSet (OpList [Zone n a b]))) ->
-  Sem.exec rt mt fuel false ss (SSet (OpList [Zone n a b])) = ROk SigNormal ss' ->
-  simulates im ss s ss' (c_stmt rt mt false None (SSet (OpList [Zone n a b]))).
-Proof.
-  intros rt mt n a b Hz. apply atom_simulation. cbn [simple_atom simple_ops forallb simple_opnd andb]. rewrite Hz. reflexivity.
-Qed.
-Print Assumptions C15_zone_command_compiled_runs_as_its_source_says.
